@@ -404,7 +404,7 @@ class TensorizeLoop(LoopContract):
 class Tensorize(Contract):
     global_writes_allowed = (HVQ,)
     qualname = "nasim.envs.state.State.tensorize"
-    tags = {"": ("C09", "C04", "C19")}
+    tags = {"": ("C09", "C04", "C19", "C01", "C08")}
     bounded = False
 
     def setup(self, I, variant):
